@@ -40,7 +40,8 @@ class Contract:
                  returns=None, loops=None, params=None, max_paths=4000, pure_spec=None,
                  no_return=False, props=(), ghost_asserts=None, notes="", assumed=False,
                  locals=None, ghost_modifies=(), decreases=None, loop_all=None, closure=None,
-                 waive=(), havoc_stmts=(), dyn_call_ghost=None, ghost_calls=(), exit_post=()):
+                 waive=(), havoc_stmts=(), dyn_call_ghost=None, ghost_calls=(), exit_post=(),
+                 valid_schema=False):
         self.target = target
         self.requires = list(requires)
         self.ensures = list(ensures)
@@ -67,6 +68,7 @@ class Contract:
         self.dyn_call_ghost = dyn_call_ghost   # (ghost name, predicate name) counted per user call
         self.ghost_calls = list(ghost_calls)   # ghost counters of calls to this function
         self.exit_post = list(exit_post)       # clauses over the locals, checked at every return
+        self.valid_schema = valid_schema       # assume schema validity facts (A7) in this proof
 
 
 class Seq:
